@@ -233,6 +233,16 @@ func (p *Peer) Frames() []Frame {
 	return append([]Frame{}, p.frames...)
 }
 
+// FramesFrom returns the frames received from index i on (a copy of the tail only).
+func (p *Peer) FramesFrom(i int) []Frame {
+	p.mu.Lock()
+	defer p.mu.Unlock()
+	if i >= len(p.frames) {
+		return nil
+	}
+	return append([]Frame{}, p.frames[i:]...)
+}
+
 // NFrames returns how many frames were received so far.
 func (p *Peer) NFrames() int {
 	p.mu.Lock()
